@@ -1102,12 +1102,27 @@ impl Ctx {
 
         // (D) erasure on the implementation
         let model_known = !matches!(m.on, MRes::Stuck(_));
-        let d_applies = (!c.has_try && matches!(on, Out::Ok(_))) || (model_known && m.fails == 0);
+        // When must the two compilations behave identically?
+        //  * always, if the program has no hint at all (whatever it does: runtime errors of checks that
+        //    are not type hints — container sizes, missing keys, … — must not depend on the flag);
+        //  * if no assertion failed: known from the model (`fails = 0`, also when the model stops at a
+        //    runtime error it does not describe, in a program without `try`), or from a run that
+        //    simply succeeds in a program without `try`.
+        let on_is_type_error = matches!(&on, Out::Err(l) if l.starts_with("expected "));
+        let d_applies = c.hints == 0
+            || (!c.has_try && matches!(on, Out::Ok(_)))
+            || (model_known && m.fails == 0)
+            || (!c.has_try && !model_known && m.fails == 0 && !on_is_type_error);
         let mut d_failed = false;
         if d_applies {
             self.erasure_checked += 1;
             if c.hints > 0 {
                 self.erasure_nontrivial += 1;
+            } else {
+                self.rep.bump("erasure:hint-free-program");
+                if !matches!(on, Out::Ok(_)) {
+                    self.rep.bump("erasure:hint-free-program-ending-in-an-error");
+                }
             }
             if on != off || on_trace != off_trace {
                 d_failed = true;
@@ -2111,7 +2126,11 @@ impl<'a> PGen<'a> {
         }
         if depth > 0 && r < 70 {
             match k {
-                K::Int if r < 58 => return E::Add(bx(self.expr(K::Int, sc, depth - 1)), bx(self.expr(K::Int, sc, depth - 1))),
+                K::Int if r < 58 => {
+                    // now and then an operand of the wrong kind: a runtime error that is no type hint
+                    let rk = if self.rng.chance(1, 40) { K::Str } else { K::Int };
+                    return E::Add(bx(self.expr(K::Int, sc, depth - 1)), bx(self.expr(rk, sc, depth - 1)));
+                }
                 K::Bool if r < 58 => return E::Lt(bx(self.expr(K::Int, sc, depth - 1)), bx(self.expr(K::Int, sc, depth - 1))),
                 K::Str if r < 52 => {
                     let k2 = self.kind();
@@ -2143,6 +2162,14 @@ impl<'a> PGen<'a> {
             .params
             .iter()
             .map(|pk| {
+                if *pk == K::Tuple && self.rng.chance(1, 10) {
+                    // a container of the wrong size for a nested `(a, b)` argument
+                    return E::Lit(match self.rng.below(3) {
+                        0 => V::Tuple(vec![V::Int(1), V::Str("t".into()), V::Int(3)]),
+                        1 => V::List(vec![V::Int(1)]),
+                        _ => V::List(vec![V::Int(2), V::Str("u".into())]),
+                    });
+                }
                 let k = if self.wrong() { self.kind() } else { *pk };
                 self.expr(k, sc, depth)
             })
@@ -2589,10 +2616,78 @@ impl<'a> PGen<'a> {
     }
 }
 
+/// the same program without any type hint (typed catch blocks, which need their hint, are dropped;
+/// `let _: T = e` becomes the statement `e`)
+fn strip_hints_p(p: &P) -> P {
+    match p {
+        P::B(t, _) => P::B(t.clone(), None),
+        P::Lit(n) => P::Lit(*n),
+        P::Tup(ps) => P::Tup(ps.iter().map(strip_hints_p).collect()),
+    }
+}
+fn strip_hints(e: &E) -> E {
+    let b = |x: &E| bx(strip_hints(x));
+    let bs = |v: &Vec<Binder>| v.iter().map(|(t, _)| (t.clone(), None)).collect::<Vec<_>>();
+    match e {
+        E::Lit(_) | E::Var(_) => e.clone(),
+        E::Add(x, y) => E::Add(b(x), b(y)),
+        E::Lt(x, y) => E::Lt(b(x), b(y)),
+        E::TypeOf(x) => E::TypeOf(b(x)),
+        E::Let(T::Id(x), _, r) => E::Let(T::Id(*x), None, b(r)),
+        E::Let(_, _, r) => strip_hints(r),
+        E::LetTemps(v, es) => E::LetTemps(bs(v), es.iter().map(strip_hints).collect()),
+        E::LetUnpack(v, r) => E::LetUnpack(bs(v), b(r)),
+        E::Seq(x, y) => E::Seq(b(x), b(y)),
+        E::Emit(x) => E::Emit(b(x)),
+        E::If(c, t, f) => E::If(b(c), b(t), b(f)),
+        E::For(v, it, body) => E::For(bs(v), b(it), b(body)),
+        E::Call(f, args) => E::Call(b(f), args.iter().map(strip_hints).collect()),
+        E::Ret(x) => E::Ret(b(x)),
+        E::Throw(x) => E::Throw(b(x)),
+        E::Try(body, _, x, fin) => E::Try(b(body), vec![], x.clone(), b(fin)),
+        E::Match(ss, arms) => E::Match(
+            ss.iter().map(strip_hints).collect(),
+            arms.iter()
+                .map(|a| Arm {
+                    alts: a.alts.iter().map(|alt| alt.iter().map(strip_hints_p).collect()).collect(),
+                    guard: a.guard.as_ref().map(strip_hints),
+                    body: strip_hints(&a.body),
+                })
+                .collect(),
+        ),
+    }
+}
+fn strip_hints_prog(p: &Prog) -> Prog {
+    Prog {
+        funs: p
+            .funs
+            .iter()
+            .map(|f| FunDef {
+                params: f.params.iter().map(strip_hints_p).collect(),
+                out: None,
+                body: match &f.body {
+                    Body::Plain(e) => Body::Plain(strip_hints(e)),
+                    Body::Gen(ss) => Body::Gen(
+                        ss.iter()
+                            .map(|s| match s {
+                                GStmt::Yld(e) => GStmt::Yld(strip_hints(e)),
+                                GStmt::Exec(e) => GStmt::Exec(strip_hints(e)),
+                            })
+                            .collect(),
+                    ),
+                },
+            })
+            .collect(),
+        main: strip_hints(&p.main),
+    }
+}
+
 fn random_program(rng: &mut Rng) -> Prog {
     let p_wrong = *rng.pick(&[0u32, 0, 0, 30, 30, 100]);
     let mut g = PGen { rng, sigs: vec![], next_var: 0, marker: 0, p_wrong };
-    g.program()
+    let p = g.program();
+    // one program in five runs without any hint: the flag must then change nothing at all
+    if g.rng.chance(1, 5) { strip_hints_prog(&p) } else { p }
 }
 
 // ------------------------------------------------------------------------------------------------
@@ -3085,6 +3180,283 @@ fn multi_subject_wildcard_grid(cx: &mut Ctx, values: &[(String, V)], names: &[&s
     cx.rep.extra.insert("multi_subject_wildcard_cases".into(), json!(n));
 }
 
+/// Hand-written programs *without any hint*, around the checks the compiler emits that are not type
+/// hints (container sizes of nested arguments and patterns, unpacking, thrown errors, runtime errors):
+/// the two compilations must agree on them whatever happens.
+fn hint_free_programs() -> Vec<(String, Prog)> {
+    let em = |n: i64| E::Emit(bx(lit_i(n)));
+    let idp = |n: u32| P::B(T::Id(n), None);
+    let wild = P::B(T::Wild, None);
+    let mut out: Vec<(String, Prog)> = vec![];
+    // nested arguments × argument values of the right and of wrong sizes / kinds
+    let pats: Vec<(&str, Vec<P>)> = vec![
+        ("pair", vec![P::Tup(vec![idp(1), idp(2)]), idp(3)]),
+        ("pair-wild", vec![P::Tup(vec![idp(1), wild.clone()]), idp(3)]),
+        ("deep", vec![idp(3), P::Tup(vec![idp(1), P::Tup(vec![idp(2), P::B(T::WildNamed(8), None)])])]),
+        ("triple", vec![P::Tup(vec![idp(1), idp(2), idp(4)]), idp(3)]),
+    ];
+    let args: Vec<(&str, V)> = vec![
+        ("t2", V::Tuple(vec![V::Int(1), V::Int(2)])),
+        ("t3", V::Tuple(vec![V::Int(1), V::Int(2), V::Int(3)])),
+        ("t1", V::Tuple(vec![V::Int(1)])),
+        ("l2", V::List(vec![V::Int(1), V::Int(2)])),
+        ("l0", V::List(vec![])),
+        ("nested-ok", V::Tuple(vec![V::Int(1), V::Tuple(vec![V::Int(2), V::Int(3)])])),
+        ("nested-inner-3", V::Tuple(vec![V::Int(1), V::Tuple(vec![V::Int(2), V::Int(3), V::Int(4)])])),
+        ("int", V::Int(7)),
+        ("null", V::Null),
+        ("str", V::Str("ab".into())),
+    ];
+    for (pn, params) in &pats {
+        for (an, a) in &args {
+            for is_gen in [false, true] {
+                for in_try in [false, true] {
+                    let mut funs = base_funs();
+                    let call_args: Vec<E> = params
+                        .iter()
+                        .map(|p| if matches!(p, P::Tup(_)) { E::Lit(a.clone()) } else { lit_i(9) })
+                        .collect();
+                    let body_stmts = vec![em(1), E::Emit(bx(E::Var(1))), E::Var(3)];
+                    let use_it = if is_gen {
+                        funs.push(FunDef {
+                            params: params.clone(),
+                            out: None,
+                            body: Body::Gen(vec![GStmt::Exec(em(1)), GStmt::Yld(E::Var(1)), GStmt::Yld(E::Var(3))]),
+                        });
+                        E::For(vec![(T::Id(5), None)], bx(E::Call(bx(E::Lit(V::GenFn(2))), call_args)), bx(E::Emit(bx(E::Var(5)))))
+                    } else {
+                        funs.push(FunDef { params: params.clone(), out: None, body: Body::Plain(seq(body_stmts)) });
+                        E::Call(bx(E::Lit(V::Fn(2))), call_args)
+                    };
+                    let main = if in_try {
+                        seq(vec![em(0), E::Try(bx(use_it), vec![], T::Id(6), bx(seq(vec![em(90), E::TypeOf(bx(E::Var(6)))]))), em(2)])
+                    } else {
+                        seq(vec![em(0), use_it, em(2)])
+                    };
+                    out.push((format!("nested-arg:{}:{}:{}:{}", pn, an, if is_gen { "gen" } else { "fn" }, if in_try { "try" } else { "top" }), Prog { funs, main }));
+                }
+            }
+        }
+    }
+    // patterns and unpacking
+    for (an, a) in &args {
+        out.push((
+            format!("match-nested:{}", an),
+            Prog {
+                funs: base_funs(),
+                main: E::Match(
+                    vec![E::Lit(a.clone())],
+                    vec![
+                        Arm { alts: vec![vec![P::Tup(vec![idp(1), idp(2)])], vec![P::Tup(vec![idp(1), P::Tup(vec![idp(2), wild.clone()])])]], guard: None, body: seq(vec![em(10), E::Var(1)]) },
+                        Arm { alts: vec![vec![P::Tup(vec![idp(1)])], vec![P::Lit(7)]], guard: Some(E::Lt(bx(lit_i(1)), bx(lit_i(2)))), body: em(11) },
+                        Arm { alts: vec![], guard: None, body: em(12) },
+                    ],
+                ),
+            },
+        ));
+        out.push((
+            format!("unpack:{}", an),
+            Prog {
+                funs: base_funs(),
+                main: seq(vec![
+                    E::Try(
+                        bx(seq(vec![E::LetUnpack(vec![(T::Id(1), None), (T::Wild, None), (T::Id(3), None)], bx(E::Lit(a.clone()))), E::Emit(bx(E::Var(1))), E::Emit(bx(E::Var(3)))])),
+                        vec![],
+                        T::Wild,
+                        bx(em(90)),
+                    ),
+                    E::For(vec![(T::Id(4), None), (T::WildNamed(5), None)], bx(E::Lit(V::List(vec![a.clone()]))), bx(E::Emit(bx(E::Var(4))))),
+                ]),
+            },
+        ));
+        out.push((
+            format!("throw:{}", an),
+            Prog {
+                funs: base_funs(),
+                main: seq(vec![
+                    E::Try(bx(seq(vec![em(1), E::Throw(bx(E::Lit(a.clone()))), em(2)])), vec![], T::Id(1), bx(E::Emit(bx(E::TypeOf(bx(E::Var(1))))))),
+                    em(3),
+                    E::Throw(bx(E::Lit(a.clone()))),
+                ]),
+            },
+        ));
+    }
+    out.push((
+        "runtime-error-in-operator".into(),
+        Prog {
+            funs: base_funs(),
+            main: seq(vec![
+                E::Try(bx(E::Add(bx(lit_i(1)), bx(lit_s("s")))), vec![], T::Id(1), bx(em(90))),
+                E::Add(bx(lit_i(1)), bx(lit_s("s"))),
+            ]),
+        },
+    ));
+    out
+}
+
+/// Typed `catch` blocks in every form — `e: T`, `_: T`, `_e: T`, `T?`, map patterns `{k}`, `{k: T}`,
+/// `{k as x: T}`, `{k as _: T}`, `{k}: T` — in chains of one or two blocks followed by a last block
+/// that is untyped or a map pattern, × thrown values. Oracle (the model's `check`, `chk` requests):
+/// the first block whose pattern accepts the thrown value runs, and only that one; if none does, the
+/// error propagates *unchanged* to the enclosing handler (observed by an outer `try` and at top
+/// level). Both modes must agree (no assertion is involved).
+fn catch_chain_grid(cx: &mut Ctx) {
+    #[derive(Clone)]
+    enum CF {
+        Id(&'static str, &'static str, bool),          // target spelling, type, optional
+        Key(&'static str),                             // {k}
+        Entry(&'static str, &'static str, &'static str), // {k <spelling> T}: spelling "", "as v9", "as _", "as _w9"
+        Whole(&'static str),                           // {k0}: T
+        CatchAll,
+    }
+    let types = ["String", "Map", "Foo", "Qux"];
+    let mut first: Vec<CF> = vec![];
+    for t in types {
+        for tgt in ["v8", "_", "_w8"] {
+            for opt in [false, true] {
+                first.push(CF::Id(tgt, t, opt));
+            }
+        }
+    }
+    let mut maps: Vec<CF> = vec![CF::Key("k0"), CF::Key("k9")];
+    for t in types {
+        maps.push(CF::Entry("k0", "", t));
+        maps.push(CF::Entry("k0", " as v9", t));
+        maps.push(CF::Entry("k0", " as _", t));
+        maps.push(CF::Entry("k0", " as _w9", t));
+        maps.push(CF::Whole(t));
+    }
+    first.extend(maps.clone());
+    let mut last: Vec<CF> = vec![CF::CatchAll];
+    last.extend(maps);
+    let thrown: Vec<V> = vec![
+        V::Str("s".into()),
+        V::Int(5),
+        V::Null,
+        V::Map(vec![(0, V::Int(1))]),
+        V::Map(vec![(0, V::Str("x".into()))]),
+        V::Obj { ty: MetaTy::Str("Foo".into()), call: false, iter: false, next: false, es: vec![(0, V::Map(vec![]))], base: None },
+        V::Obj { ty: MetaTy::Str("Bar".into()), call: false, iter: false, next: false, es: vec![(1, V::Int(2))], base: Some(Box::new(obj_t("Foo", None))) },
+        V::List(vec![V::Int(1)]),
+    ];
+    // oracle cache
+    let mut cache: std::collections::HashMap<String, bool> = Default::default();
+    let mut chk = |cx: &mut Ctx, t: &str, opt: bool, v: &V| -> bool {
+        let key = format!("chk {} {}", sx_hint(&hint(t, opt)), sx_v(v));
+        if let Some(b) = cache.get(&key) {
+            return *b;
+        }
+        let b = cx.drv.ask(&key) == "1";
+        cache.insert(key, b);
+        b
+    };
+    let entries = |v: &V| -> Option<Vec<(u32, V)>> {
+        match v {
+            V::Map(es) => Some(es.clone()),
+            V::Obj { es, .. } => Some(es.clone()),
+            _ => None,
+        }
+    };
+    let src = |f: &CF| -> String {
+        match f {
+            CF::Id(tgt, t, opt) => format!("{}: {}{}", tgt, t, if *opt { "?" } else { "" }),
+            CF::Key(k) => format!("{{{}}}", k),
+            CF::Entry(k, sp, t) => format!("{{{}{}: {}}}", k, sp, t),
+            CF::Whole(t) => format!("{{k0}}: {}", t),
+            CF::CatchAll => "v7".to_string(),
+        }
+    };
+    let mut n = 0u64;
+    let mut chains: Vec<Vec<CF>> = last.iter().map(|l| vec![l.clone()]).collect();
+    for f in &first {
+        for l in &last {
+            chains.push(vec![f.clone(), l.clone()]);
+        }
+    }
+    // a few chains of three
+    for f in first.iter().step_by(7) {
+        for g in first.iter().skip(3).step_by(11) {
+            chains.push(vec![f.clone(), g.clone(), CF::CatchAll]);
+            chains.push(vec![f.clone(), g.clone(), CF::Entry("k0", "", "String")]);
+        }
+    }
+    for chain in &chains {
+        for x in &thrown {
+            // which block takes it?
+            let mut selected: Option<usize> = None;
+            for (i, f) in chain.iter().enumerate() {
+                let m = match f {
+                    CF::Id(_, t, opt) => chk(cx, t, *opt, x),
+                    CF::Key(k) => entries(x).is_some_and(|es| es.iter().any(|(n, _)| format!("k{}", n) == *k)),
+                    CF::Entry(k, _, t) => match entries(x).and_then(|es| es.into_iter().find(|(n, _)| format!("k{}", n) == *k)) {
+                        Some((_, ev)) => chk(cx, t, false, &ev),
+                        None => false,
+                    },
+                    CF::Whole(t) => entries(x).is_some_and(|es| es.iter().any(|(n, _)| *n == 0)) && chk(cx, t, false, x),
+                    CF::CatchAll => true,
+                };
+                if m {
+                    selected = Some(i);
+                    break;
+                }
+            }
+            let inner = |ind: usize| -> String {
+                let p = " ".repeat(ind);
+                let mut t = format!("try\n{p}  print(repr(1))\n{p}  throw v0\n");
+                for (i, f) in chain.iter().enumerate() {
+                    t.push_str(&format!("{p}catch {}\n{p}  print(repr({}))\n{p}  {}\n", src(f), 10 + i, 10 + i));
+                }
+                t
+            };
+            for outer in [true, false] {
+                let script = if outer {
+                    format!("v0 = {}\nr = try\n  {}catch v6\n  print(repr(99))\n  print(repr(v6))\n  99\nprint(repr(2))\nr\n", r_v(x), inner(2))
+                } else {
+                    format!("v0 = {}\nr = {}print(repr(2))\nr\n", r_v(x), inner(0))
+                };
+                let xc = cx.drv.ask(&format!("run 10 (funs) (lit {})", sx_v(x)));
+                let x_canon = xc.split(" ;; ").next().and_then(|r| r.strip_prefix("ok ")).unwrap_or("?").to_string();
+                let expected: (String, String) = match (selected, outer) {
+                    (Some(i), _) => (format!("ok i{}", 10 + i), format!("i1 i{} i2", 10 + i)),
+                    (None, true) => ("ok i99".to_string(), format!("i1 i99 {} i2", x_canon)),
+                    (None, false) => ("err".to_string(), "i1".to_string()),
+                };
+                let key = format!("catch-chain [{}] thrown {} {}", chain.iter().map(&src).collect::<Vec<_>>().join(" | "), sx_v(x), if outer { "outer-try" } else { "top-level" });
+                cx.rep.case(&key, true);
+                cx.rep.bump("kind=catch-chain");
+                n += 1;
+                let mut bad = vec![];
+                for checks in [true, false] {
+                    let (o, lines, _) = run_koto(&script, checks);
+                    let got = (
+                        match &o {
+                            Out::Ok(c) => format!("ok {}", c),
+                            Out::Err(_) => "err".to_string(),
+                            other => format!("{:?}", other),
+                        },
+                        trace_text(&lines),
+                    );
+                    if got != expected {
+                        bad.push(json!({"checks": checks, "impl": [got.0, got.1], "impl_raw": format!("{:?}", o)}));
+                    }
+                }
+                if !bad.is_empty() {
+                    cx.d_fail += 1;
+                    if cx.d_fail <= 5 {
+                        cx.rep.violation(
+                            "D",
+                            "C16:catch-chain",
+                            json!({"case": key, "script": script, "expected": [expected.0, expected.1], "deviations": bad,
+                                   "note": "the first catch block whose pattern accepts the thrown value runs; if none does the error propagates unchanged to the enclosing handler"}),
+                        );
+                    }
+                }
+            }
+        }
+    }
+    cx.rep.extra.insert("catch_chain_cases".into(), json!(n));
+}
+
 /// `CompileArgs` is a builder: the switches must be independent. The exports of a script compiled
 /// with `export_top_level_ids(true)` are the same whichever side of it `enable_type_checks(b)` is set,
 /// and contain the script's top-level ids.
@@ -3318,6 +3690,11 @@ fn main() {
         }
     }
     cx.flush();
+    for (name, p) in hint_free_programs() {
+        cx.push(&format!("nohint:{}", name), &p);
+    }
+    cx.flush();
+    catch_chain_grid(&mut cx);
     map_pattern_grid(&mut cx, &form_values, &names);
     multi_subject_wildcard_grid(&mut cx, &form_values, &names);
     // deeper chains on the two cheapest positions (one assert, one check) with the names that matter
